@@ -7,3 +7,4 @@ import Props.C10
 #print axioms Bycycle.C10_ratio
 #print axioms Bycycle.C10_period_consistency
 #print axioms Bycycle.C10_rate
+#print axioms Bycycle.C10_amplitude
